@@ -240,3 +240,68 @@ def run(ck: Checker):
     ck.need(nx, f'{f.key}: no pull from the source')
     bad = [n for n in nx if len(n.args) > 1 or n.keywords]
     ck.ob('C10-7', f, nx[0], not bad, f'all {len(nx)} pulls end on StopIteration only' if not bad else f'L{bad[0].lineno}: `{norm_text(bad[0])}` uses an in-band default: a source element equal to it is taken for exhaustion — the fork that pulled it ends early while its peers skip that element and go on (different streams, and the survivor blocks on the full window)')
+    ck.rule('C10-8', 'the pop threshold is the number of forks: tee() binds the constructor parameter that becomes `self.n_forks` to the expression that bounds the fork-creation loop (AGREE)', minimum=1)
+    check_fork_count(ck, 'C10-8')
+
+
+def _default_of(a: ast.arguments, name: str) -> str:
+    allpos = a.posonlyargs + a.args
+    for x, d in zip(allpos[len(allpos) - len(a.defaults):], a.defaults):
+        if x.arg == name:
+            return norm_text(d)
+    for x, d in zip(a.kwonlyargs, a.kw_defaults):
+        if x.arg == name and d is not None:
+            return norm_text(d)
+    return 'a default number of'
+
+
+def check_fork_count(ck: Checker, rid: str):
+    """The window pops an element when `box.n == self.n_forks`.  That number must be the number of forks that exist:
+    `tee()` binds the `n_forks` parameter of every `Fork(...)` it creates (through the signature of Fork.__init__,
+    positionally or by keyword) to the very expression that bounds the creation loop, and the constructor stores it
+    unchanged.  A default, a constant or another variable gives the same streams for the matching n and silently pops
+    early (the window no longer bounds the lead over the slowest fork) or never (all forks block) for the others."""
+    tf = ck.repo.func(TEE, 'tee')
+    fk = ck.repo.cls(TEE, 'Fork')
+    init = fk.method('__init__')
+    a = init.node.args
+    pos = [x.arg for x in a.posonlyargs + a.args][1:]
+    kwo = [x.arg for x in a.kwonlyargs]
+    # which parameter ends up in self.n_forks
+    src = None
+    for n in walk_shallow_func(init.node):
+        if isinstance(n, ast.Assign) and len(n.targets) == 1 and dotted(n.targets[0]) == 'self.n_forks':
+            src = n.value
+    ck.need(src is not None, f'{init.key}: `self.n_forks` is not assigned')
+    ok_store = isinstance(src, ast.Name) and src.id in pos + kwo
+    calls = [n for n in ast.walk(tf.node) if isinstance(n, ast.Call) and dotted(n.func) == 'Fork']
+    ck.need(calls, f'{tf.key}: no Fork(...) construction')
+    for c in calls:
+        probs = []
+        if not ok_store:
+            probs.append(f'Fork.__init__ stores `{norm_text(src)}` as the number of forks, not its parameter')
+        else:
+            pname = src.id
+            given = None
+            if pname in pos and pos.index(pname) < len(c.args) and not any(isinstance(x, ast.Starred) for x in c.args):
+                given = c.args[pos.index(pname)]
+            for k in c.keywords:
+                if k.arg == pname:
+                    given = k.value
+            # the loop that creates the forks
+            bound = None
+            for n in ast.walk(tf.node):
+                gens = n.generators if isinstance(n, (ast.GeneratorExp, ast.ListComp)) else []
+                if gens and any(x is c for x in ast.walk(n)):
+                    it = gens[0].iter
+                    if isinstance(it, ast.Call) and dotted(it.func) == 'range' and len(it.args) == 1:
+                        bound = it.args[0]
+                if isinstance(n, ast.For) and any(x is c for x in ast.walk(n)) and isinstance(n.iter, ast.Call) and dotted(n.iter.func) == 'range' and len(n.iter.args) == 1:
+                    bound = n.iter.args[0]
+            if given is None:
+                probs.append(f'`{norm_text(c)[:60]}` does not pass `{pname}`: every fork believes there are {_default_of(a, pname)} forks — with more forks an element leaves the window before the slowest fork has read it from there, so the source runs ahead without the documented bound; with fewer the window is never popped and all forks block')
+            elif bound is None:
+                probs.append('the loop that creates the forks is not a `range(<count>)` loop')
+            elif norm_text(given) != norm_text(bound):
+                probs.append(f'the forks are told there are `{norm_text(given)}` forks but `{norm_text(bound)}` are created')
+        ck.ob(rid, tf, c, not probs, '; '.join(probs) if probs else f'every fork is told the number of forks that are created (`{norm_text(bound)}`), stored unchanged as `self.n_forks`')
